@@ -79,7 +79,20 @@ def check_case(case):
             out.fail('%s:%s' % (kind, where), 'expected code %s at set %s pos %s ele %s sub %s; errors in that set: %s'
                      % (sorted(codes), exp['st'], exp['pos'], exp['ele'], exp['sub'], _brief(here)))
     else:
-        if exp['kind'] == 'required-segment-removed':
+        if exp['kind'] == 'loop-body-removed':
+            # every required child of the instance that was cut down to its first segment is reported missing, once, where the
+            # repeat starts; nothing else is reported
+            want = sorted(exp.get('removed_list', []))
+            hit = [e for e in here if e['level'] == 'seg' and e['code'] in codes]
+            got = sorted(e['seg_id'] for e in hit)
+            if not hit:
+                out.fail('%s:no-such-error' % kind, 'required %s cut away; errors in that set: %s' % (want, _brief(here)))
+            elif got != want or [e for e in o.errors if e not in hit]:
+                out.fail('%s:wrong-set-of-reports' % kind, 'required children %s cut away: mandatory-missing reports for %s, further errors %s'
+                         % (want, got, _brief([e for e in o.errors if e not in hit])))
+            elif [e for e in hit if e['pos'] != exp['pos']]:
+                out.fail('%s:wrong-coordinates' % kind, 'repeat starts at pos %s; reported at pos %s' % (exp['pos'], [e['pos'] for e in hit]))
+        elif exp['kind'] == 'required-segment-removed':
             hit = [e for e in here if e['level'] == 'seg' and e['code'] in codes and e['seg_id'] == exp.get('removed')]
             if not hit:
                 out.fail('%s:no-such-error' % kind, 'removed %s; errors in that set: %s' % (exp.get('removed'), _brief(here)))
